@@ -308,16 +308,21 @@ type c03Ctx struct {
 	cjson string
 }
 
-// per-case watchdog: the expected case time is micro- to milliseconds; a case that runs for 300 s is
-// reported as a hang (the worker exits, the driver attributes it to the case recorded with r.Cur).
-var c03CaseStart atomic.Int64
+// per-case watchdog. The machine is shared and page faults are slow, so wall time says little: a case
+// is reported as a hang when the process has burnt 200 s of CPU (user+system) since the case started
+// (expected: micro- to milliseconds; the 256 MiB layouts a few CPU-seconds). A genuinely non-terminating
+// case spins and reaches that; a starved one does not. The worker exits, the driver attributes the dead
+// worker to the case recorded with r.Cur.
+var c03CaseStart atomic.Int64 // process CPU nanoseconds at case start + 1 (0 = no case running)
+
+func c03CPUNanos() int64 { return int64(c03CPUSeconds() * 1e9) }
 
 func c03Watchdog() {
 	go func() {
 		for {
 			time.Sleep(2 * time.Second)
-			if t := c03CaseStart.Load(); t != 0 && time.Now().UnixNano()-t > int64(300*time.Second) {
-				fmt.Println("c03 watchdog: case exceeded 300 s without returning: test timed out (hang)")
+			if t := c03CaseStart.Load(); t != 0 && c03CPUNanos()-(t-1) > int64(200*time.Second) {
+				fmt.Println("c03 watchdog: case consumed more than 200 CPU-seconds without returning: test timed out (hang)")
 				os.Exit(3)
 			}
 		}
@@ -717,7 +722,7 @@ func TestVerif_C03(t *testing.T) {
 		}
 		r.Space(1)
 		t0 := time.Now()
-		c03CaseStart.Store(t0.UnixNano())
+		c03CaseStart.Store(c03CPUNanos() + 1)
 		c03RunCase(r, c)
 		c03CaseStart.Store(0)
 		famT[c.Fam] += time.Since(t0).Seconds()
